@@ -251,6 +251,9 @@ func (c *connectClient) NewConn(
 	spec Spec,
 	header http.Header,
 ) StreamingClientConn {
+	// The header map may belong to a Request that was sent before: a timeout
+	// left over from that call must not outlive its deadline.
+	delete(header, connectHeaderTimeout)
 	if deadline, ok := ctx.Deadline(); ok {
 		millis := int64(time.Until(deadline) / time.Millisecond)
 		if millis > 0 {
